@@ -115,8 +115,10 @@ def sparse_ens(S0, S, a, res):
     Gi, Gj, Gv, Fi, Fv, cons = res.items
     d = S0.dd('Expression', e)
     facts = sparse_facts(S0, e, S0.dom(d), Fi.items[0], Fi.t, Fv.t, Gi.items[0], Gi.t, Gj.t, Gv.t, cons.t)
+    r = fresh('r', I)
     return [('shapes', z3.And(Fi.items[0] == Fv.items[0], Gi.items[0] == Gj.items[0], Gi.items[0] == Gv.items[0],
-                              Fi.items[0] >= 0, Gi.items[0] >= 0), 'property')] + \
+                              Fi.items[0] >= 0, Gi.items[0] >= 0), 'property'),
+            ('only_lists_allocated', z3.ForAll([r], z3.Implies(z3.And(r >= S0.alloc, r < S.alloc), S.cls(r) == tag('list'))), 'aux')] + \
            [(lab, f, 'property') for lab, f in facts]
 
 
